@@ -337,6 +337,41 @@ Inductive build_step (st st' : pstate) : Prop :=
     grow_counters lops (pNumLocs st) = Ok (pNumLocs st') ->
     build_step st st'.
 
+(* an executable successful build: sizes, operations and the assignments
+   (index, value) made to elements of the re-sliced slices
+   (Pool_Proofs.run_build_step: its result is a build_step) *)
+Fixpoint write_all {X} (ws : list (nat * X)) (s : gslice X) : result (gslice X) :=
+  match ws with
+  | [] => Ok s
+  | (i, x) :: r => do s' <- gset s i x; write_all r s'
+  end.
+
+Record build_descr := mkBD {
+  bd_nf : nat; bd_np : nat; bd_totTFs : nat; bd_totLocs : nat;
+  bd_dv : list (nat * bool);                               (* s.IncludeDocValues[fieldID] = true *)
+  bd_dops : list (sl_op Dict);
+  bd_kops : list dk_op;
+  bd_post : list (nat * list N);                           (* s.Postings[pid].Add(docNum) *)
+  bd_fnw : list (nat * Slice interimFreqNorm);             (* s.FreqNorms[pid] = ... *)
+  bd_fnb : list (nat * option interimFreqNorm);            (* appends inside the windows *)
+  bd_lw : list (nat * Slice ELoc);
+  bd_lb : list (nat * option ELoc);
+  bd_tops : list (sl_op nat);
+  bd_lops : list (sl_op nat) }.
+
+Definition run_build (st : pstate) (d : build_descr) : result pstate :=
+  do a1 <- write_all (bd_dv d) (take_include_dv st (bd_nf d));
+  do a2 <- sl_run [] (bd_dops d) (pDicts st);
+  do a3 <- dk_run (bd_kops d) (pDictKeys st);
+  do a4 <- write_all (bd_post d) (take_postings st (bd_np d));
+  do a5 <- write_all (bd_fnw d) (take_outer (pFreqNorms st) (bd_np d));
+  do a6 <- write_all (bd_fnb d) (take_backing (pFNBacking st) (bd_totTFs d));
+  do a7 <- write_all (bd_lw d) (take_outer (pLocs st) (bd_np d));
+  do a8 <- write_all (bd_lb d) (take_backing (pLocsBacking st) (bd_totLocs d));
+  do a9 <- grow_counters (bd_tops d) (pNumTerms st);
+  do a10 <- grow_counters (bd_lops d) (pNumLocs st);
+  Ok (mkP a1 a2 a3 a4 a5 a6 a7 a8 a9 a10).
+
 (* newWithChunkMode: s := interimPool.Get() ... if err == nil && s.reset() == nil
    { interimPool.Put(s) }.  Get delivers a new object or one that was put; a
    failed build (or a failed reset) drops the object. *)
